@@ -1704,6 +1704,11 @@ class GR(G):
                 self.imported = 1
                 return ("ok", ("import", ["self", "good"], ("whole", None)))
             return ("ok", ("print", ("bin", "+", ("call", ("prop", ("var", "good"), "useg"), []), self.nexpr())))
+        if c < 70 and (self.fns or self.users):
+            # what kind of value a function defined at the prompt is (a plain function: it captures nothing, whatever
+            # earlier entries' symbols it reads)
+            f = self.pick([n for (n, _k) in self.fns] + list(self.users))
+            return ("ok", ("print", ("call", ("prop", ("call", ("prop", ("var", f), "cls"), []), "name"), [])))
         if c < 72:
             if self.users and self.objs and self.chance(50):
                 return ("ok", ("print", ("call", ("var", self.pick(self.users)), [("var", self.pick(self.objs))])))
